@@ -144,7 +144,7 @@ var secFmts = []secFmt{
 	{"group.P521", group.P521, decode.SECP521},
 }
 
-var secKinds = []string{"valid", "bitflip", "bitflip", "prefix", "prefix", "coord>=p", "coord>=p", "not-on-curve", "twist", "unused-high-bits", "identity-forms", "random"}
+var secKinds = []string{"valid", "bitflip", "bitflip", "prefix", "prefix", "coord>=p", "coord>=p", "not-on-curve", "twist", "structured-valid", "structured-valid", "unused-high-bits", "identity-forms", "random"}
 
 func drawGroupElement(t *rapid.T, g group.Group) group.Element {
 	switch rapid.IntRange(0, 11).Draw(t, "which") {
@@ -269,6 +269,20 @@ func genSEC(t *rapid.T, f secFmt, kind string) (b []byte, valid bool, orig group
 			y0 = drawBelow(t, p, "y")
 		}
 		return enc(4, x0, y0), false, nil
+	case "structured-valid":
+		// members built by the reference: x structured (0, small, 2^k, near p, (p±1)/2; moved up to the next x that
+		// is on the curve), either root y, both formats; or the identity
+		if rapid.IntRange(0, 19).Draw(t, "identity") == 0 {
+			return []byte{0}, false, nil
+		}
+		x0, y0 := liftSEC(t, c, c.B, drawStructured(t, p, "x"))
+		if rapid.Bool().Draw(t, "negy") {
+			y0 = c.F.Neg(y0)
+		}
+		if comp {
+			return enc(2|byte(y0.Bit(0)), x0), false, nil
+		}
+		return enc(4, x0, y0), false, nil
 	case "twist":
 		// a point of y² = x³ − 3x + b' (invalid-curve attack), uncompressed
 		bAlt := drawBelow(t, p, "b'")
@@ -326,6 +340,9 @@ func checkSEC(t vlib.TB, f secFmt, sub, entry string, b []byte, kind string, val
 	sample(sub, kind, accepted, b, "ref="+ref.Stage)
 	if valid && !accepted {
 		vlib.Report(t, "C09/completeness/"+entry+"/rejects-library-encoding", fmt.Sprintf("input=%x err=%v", b, err))
+		return
+	}
+	if mustAccept(t, entry, sub, kind, ref.OK, accepted, b, ref.Stage) {
 		return
 	}
 	if !accepted {
@@ -447,7 +464,7 @@ func TestC09OPRFPublicKeys(t *testing.T) {
 // ---------------------------------------------------------------------------
 // ristretto255 (group element and OPRF public key)
 
-var r255Kinds = []string{"valid", "bitflip", "bitflip", "s>=p", "negative", "rfc-bad", "high-bit", "random", "random"}
+var r255Kinds = []string{"valid", "bitflip", "bitflip", "s>=p", "negative", "rfc-bad", "high-bit", "structured-valid", "random", "random"}
 
 func genR255(t *rapid.T, kind string) (b []byte, valid bool, orig group.Element) {
 	p := decode.P25519
@@ -482,6 +499,19 @@ func genR255(t *rapid.T, kind string) (b []byte, valid bool, orig group.Element)
 			s = new(big.Int).Sub(p, s)
 		}
 		return vlib.LE(s, 32), false, nil
+	case "structured-valid":
+		// RFC 9496 A.1 multiples of the generator, or a structured s (small, 2^k, near p) that the reference accepts
+		if rapid.Bool().Draw(t, "rfc") {
+			return unhex(rapid.SampledFrom(ristrettoMultiples).Draw(t, "vec")), false, nil
+		}
+		for i := 0; ; i++ {
+			sv := drawStructured(t, p, fmt.Sprintf("s%d", i))
+			sv.SetBit(sv, 0, 0)
+			e := vlib.LE(sv, 32)
+			if decode.Ristretto255Decode(e).OK || i > 100 {
+				return e, false, nil
+			}
+		}
 	case "rfc-bad":
 		return unhex(rapid.SampledFrom(ristrettoBad).Draw(t, "vec")), false, nil
 	case "high-bit":
@@ -517,6 +547,9 @@ func checkR255(t vlib.TB, sub, entry string, b []byte, kind string, valid bool, 
 	sample(sub, kind, accepted, b, "ref="+ref.Stage)
 	if valid && !accepted {
 		vlib.Report(t, "C09/completeness/"+entry+"/rejects-library-encoding", fmt.Sprintf("input=%x err=%v", b, err))
+		return
+	}
+	if mustAccept(t, entry, sub, kind, ref.OK, accepted, b, ref.Stage) {
 		return
 	}
 	if !accepted {
@@ -626,7 +659,7 @@ func TestC09MLKEM(t *testing.T) {
 		ekLen := 384*f.k + 32
 		t.Run(f.name, func(t *testing.T) {
 			vlib.Check(t, vlib.N(300, 3000), func(t *rapid.T) {
-				kind := rapid.SampledFrom([]string{"valid", "bitflip", "bitflip", "coeff>=q", "coeff>=q", "coeff=q", "coeff=q-1", "all-coeffs-random", "all-0xfff", "random-rho"}).Draw(t, "kind")
+				kind := rapid.SampledFrom([]string{"valid", "bitflip", "bitflip", "coeff>=q", "coeff>=q", "coeff=q", "coeff=q-1", "all-coeffs-random", "all-0xfff", "random-rho", "structured-valid"}).Draw(t, "kind")
 				seed := vlib.EdgeBytes(t, s.SeedSize(), "seed")
 				pk, _ := s.DeriveKeyPair(seed)
 				v, err := pk.MarshalBinary()
@@ -655,6 +688,34 @@ func TestC09MLKEM(t *testing.T) {
 					}
 				case "random-rho":
 					vlib.FillRandom(t, ek[384*f.k:], "rho")
+				case "structured-valid":
+					// every coefficient reduced: all 0, all q−1, a ramp, or powers of two; ρ all-zero / all-ones / kept
+					pat := rapid.IntRange(0, 3).Draw(t, "pattern")
+					for i := 0; i < nc; i++ {
+						v := uint16(0)
+						switch pat {
+						case 1:
+							v = 3328
+						case 2:
+							v = uint16(i % 3329)
+						case 3:
+							v = uint16(1) << uint(i%12)
+							if v >= 3329 {
+								v = 3328
+							}
+						}
+						setCoeff(ek, i, v)
+					}
+					switch rapid.IntRange(0, 2).Draw(t, "rho") {
+					case 0:
+						for i := 384 * f.k; i < ekLen; i++ {
+							ek[i] = 0
+						}
+					case 1:
+						for i := 384 * f.k; i < ekLen; i++ {
+							ek[i] = 0xff
+						}
+					}
 				}
 				valid := eq(b, v)
 				vlib.Eval(sub)
@@ -670,6 +731,9 @@ func TestC09MLKEM(t *testing.T) {
 				sample(sub, kind, accepted, b, fmt.Sprintf("ref=%s coefficient=%d", stage, bad))
 				if valid && !accepted {
 					vlib.Report(t, "C09/completeness/"+sub+"/rejects-library-encoding", fmt.Sprintf("seed=%x err=%v", seed, err))
+					return
+				}
+				if mustAccept(t, sub, sub, kind, refOK, accepted, b, stage) {
 					return
 				}
 				if !accepted {
